@@ -444,6 +444,20 @@ def render_item(relpath, kind, name, opts, pre_lines, log):
             raise LostAnchor(f'struct {name}: kept field(s) {sorted(missing)} not found')
         text = text[:o + 1] + '\n' + ',\n'.join(kept) + ',\n' + text[c:]
         log.append(dict(rule='D4', item=name, pruned=pruned))
+    if kind == 'struct' and opts.get('pubfields'):
+        # rule D3 (fields): private fields become `pub` so that contracts of pub functions may mention them
+        o = text.find('{')
+        c = text.rfind('}')
+        if o >= 0:
+            fields = split_top_commas(text[o + 1:c])
+            newf = []
+            for f in fields:
+                m = re.search(r'(^|\n)(\s*)((?:pub(?:\([^)]*\))?\s+)?)([A-Za-z_][A-Za-z0-9_]*\s*:)', re.sub(r'//[^\n]*', lambda mm: ' ' * len(mm.group(0)), f))
+                if m and not m.group(3):
+                    f = f[:m.start(4)] + 'pub ' + f[m.start(4):]
+                newf.append(f)
+            text = text[:o + 1] + ','.join(newf) + (',' if text[o + 1:c].rstrip().endswith(',') else '') + text[c:]
+            log.append(dict(rule='D3', item=name, what='private fields made pub'))
     if opts.get('name'):
         text = re.sub(r'\b' + kind + r'\s+' + re.escape(it.name) + r'\b', kind + ' ' + opts['name'], text, count=1)
     pre = list(pre_lines)
